@@ -82,7 +82,7 @@ def interleave_job(job):
             code, out, err = p.finish()
             results.append({"code": code, "stdout": out, "stderr": err[-600:]})
         left, changed = sb.leftovers()
-        return {"choices": choices, "points": points, "results": results, "tmp_left": left, "cwd_changed": changed, "steps": steps}
+        return {"choices": choices, "points": points, "results": results, "tmp_left": left, "cwd_changed": changed, "steps": steps, "cwd_new": sb.new_files()}
     finally:
         for p in procs:
             if p.p.poll() is None:
